@@ -13,19 +13,38 @@ CFG = {
     "level_note": "Trusted: Lean kernel; my transcription of the CNB formats (Spec/CnbSchemas.lean); the generic reader `decode` as the meaning of a "
                   "serde-derived type (Base/Schema.lean; sampled by the correspondence); translator; harness. Modelled not verified: serde derive, "
                   "the toml crate's text parser (documents reach it as text produced by toml::to_string), uriparse, the identifier grammars (C09). "
-                  "Known finding C08-F2 (serde leniency): see FullStatementKinds / serde_leniency_counterexample.",
+                  "Known finding C08-F2 (serde leniency): see FullStatementKinds / serde_leniency_counterexample. "
+                  "Known finding C08-F5 (datetime as metadata table): a datetime where the free-form `metadata` table is expected is accepted as the one-key table "
+                  "{ $__toml_private_datetime = text } (the toml crate's private datetime encoding, same root as C07-F3); the driver gives the verdict "
+                  "wrong-kind-accepted:datetime-as-table only when that is the sole deviation (Driver/C08.lean isDatetimeAsTable: the document with exactly those "
+                  "datetimes replaced conforms and the result equals the specification's reading of it); a datetime accepted anywhere else stays a violation.",
     "shrink": [],
-    "rule": "exhaustive over 16 base documents (maximal component / composite buildpack.toml, buildpack plan, launch.toml, layer metadata, "
-            "store.toml, package.toml, a target; and the empty documents) x 10 libcnb types: every single-point mutation (2 undefined keys in every "
-            "table incl. free-form ones, delete every key, delete every array element, retype every value 2-4 ways, add order/targets/stacks "
-            "empty and non-empty; every `uri` value of package.toml replaced by 16 valid spellings not in RFC 3986 normal form that must come back verbatim, "
+    "rule": "fields = type, document as a value tree, optionally the TOML text (hex) in which the tree is handed to the real parser. Exhaustive over 16 base documents "
+            "(maximal component / composite buildpack.toml, buildpack plan, launch.toml, layer metadata, store.toml, package.toml, a target; and the empty documents) x 10 libcnb "
+            "types: every single-point mutation (2 undefined keys in every table incl. free-form ones, delete every key, delete every array element, retype every value 2-4 ways, "
+            "add order/targets/stacks empty and non-empty; every `uri` value of package.toml replaced by 16 valid spellings not in RFC 3986 normal form that must come back verbatim, "
             "12 spellings uriparse re-prints at parse time (known finding C08-F4) and 10 invalid references; a struct as a positional array, a string as "
             "{ s = {} } / { s = [] } / { s = \"x\" }), every key subset of every table outside metadata, and every single-point mutation of 10 (quick) / 120 "
-            "(thorough) seeded subset documents; thorough adds sampled two-point mutations. non-trivial = anything but an unmodified base "
-            "document; distinct = distinct (type, document)",
+            "(thorough) seeded subset documents; thorough adds sampled two-point mutations. Directed families on the maximal documents: the undefined key with a value of every "
+            "TOML kind (11) in every table; undefined keys spelled like the table's own keys (other case, -/_ swapped or dropped, camelCase, plural / singular, padded with blanks / LF / "
+            "BOM, fullwidth, Cyrillic look-alike first letter, dotted) and 37 names defined elsewhere in the formats or odd (empty, Unicode, `a.b`); every defined key renamed to a close spelling (other case, -/_ swapped or dropped, camelCase, plural / singular: the key itself missing, an undefined one present); every value retyped to 23 more values "
+            "(floats incl. 0.10 / -0.0 / inf / nan / 1e300 / 5e-324 where strings are expected, i64 min / max / 2^53, four datetime forms, filled arrays and tables; a datetime in place of "
+            "the `metadata` table is known finding C08-F5); value pools for every string by "
+            "its key (os, arch, variant, api, version, distro version, id, stack id, process type, working-dir, sbom-format: well-known values, case variants, padded, reserved words, boundary "
+            "numbers) plus 48 shapes any string may take (empty, blanks, LF / CRLF, BOM, NUL, composed / decomposed, fullwidth, TOML-looking text such as `# not a comment`, `[table]`, `key = value`, triple quotes, backslashes, 255 / 256 / 257 / 4096 characters; thorough "
+            "65535..65537); the empty value of every node's kind (optional key present but empty / at its default); duplicated array elements. Layouts (harness/src/tomllayout.rs; the text is "
+            "checked to denote the tree, then read by toml::from_str::<T> and by libcnb-common's read_toml_file::<T> from a file, which must agree): each base document in 17 directed styles "
+            "and 40 (thorough 300) seeded random styles over header / inline / dotted-key tables, [[x]] / inline arrays of tables, implicit super-tables, shuffled and quoted keys, literal / "
+            "multi-line / escaped strings, other number spellings, CRLF, BOM, comments, blank lines, indentation, odd spacing, no final newline; every key-subset document and every "
+            "single-point mutation (value pools and added retypes 1 in 4, key spellings 1 in 2) in 1 (thorough 4) random style. Big documents: n processes / labels / slices / plan entries / "
+            "order entries (one with n groups) / targets (one with n distros) / stacks / keywords / licenses / sbom-formats / dependencies and metadata n keys wide and up to 40 levels deep, "
+            "n = 16,17,20,21,32,33,64,65,128,129,256,257 (thorough 512,513,1000,1024,1025), valid (toml crate's spelling and 2-3 layouts) and, for n = 17,33,65,257 (thorough: all), an "
+            "undefined key / a deleted key / a retyped value in the first, middle and last element of every n-element array. non-trivial = anything but an unmodified base "
+            "document; distinct = distinct (type, document, text)",
     "exhaustive": True,
     "trusted_base": ["Spec/CnbSchemas.lean is my reading of the CNB specification (keys, kinds, required/optional, defaults)",
                      "Gen/Schemas.lean regenerated from #[derive(Serialize, Deserialize)] items and #[serde(..)] attributes (syn)"],
     "assumptions": COMMON_ASSUME + ["serde's derived Deserialize behaves as the generic reader `decode` on the regenerated schema",
-                                    "toml::to_string followed by toml::from_str is faithful on value trees (the documents are generated as trees)"],
+                                    "known finding C08-F5: toml::Table also reads the toml crate's private one-key encoding of a datetime, so `metadata = <datetime>` is accepted (recorded, not repaired)",
+                                    "toml::to_string followed by toml::from_str is faithful on value trees (the documents are generated as trees); for cases that carry their text the harness checks with toml::from_str::<Value> that the text denotes the tree"],
 }
